@@ -9,6 +9,8 @@ open Sqfs.Path (SL DOT canonicalize joinSlash)
 /-- a path component as SquashFS stores it: not empty, not "." or "..", no '/', no NUL -/
 def CleanComp (c : Bytes) : Prop := c ≠ [] ∧ c ≠ [DOT] ∧ c ≠ [DOT, DOT] ∧ SL ∉ c ∧ (0 : UInt8) ∉ c
 
+instance (c : Bytes) : Decidable (CleanComp c) := by unfold CleanComp; infer_instance
+
 /--
 One node of a tree read from an image, together with the image's side data for it.
 
